@@ -231,7 +231,7 @@ Qed.
 
 (* ------------------------------------------------------------ non-vacuity *)
 Definition mk_snap (inst : Z) (id : N) : snap :=
-  {| s_inst := inst; s_offs := 0; s_id := [id]; s_tags := []; s_del := DNotSet; s_tree := id |}.
+  {| s_inst := inst; s_offs := 0; s_id := [id]; s_tags := []; s_del := DNotSet; s_tree := id; s_host := 0; s_label := 0; s_paths := [] |}.
 Definition ex_keep : keep :=
   {| k_count := fun p => match p with PMinute => Some 2 | PWeek => Some 2 | _ => None end;
      k_within := fun _ => None; k_tags := []; k_ids := []; k_none := false; k_delete_unchanged := false |}.
